@@ -27,6 +27,11 @@ theorem hex_reject (t : Bytes) (h : t.length % 2 = 1 ∨ ∃ c ∈ t, unhex c = 
   · exact hexDec_odd t h
   · exact hexDec_nonhex t h
 
+/-- no wrong value: a text that from_hex accepts is, up to the case of A-F, exactly the hex text
+    of the value returned (so `from_hex | to_hex` is case folding, and from_hex is injective up to case) -/
+theorem hex_decode_sound (t v : Bytes) (h : hexDec t = some v) : hexEnc v = t.map lowerHex :=
+  hexDec_sound t v h
+
 example : hexDec (bytesOfAscii "abc") = none := hex_reject _ (Or.inl (by decide))
 example : hexDec (bytesOfAscii "0g") = none := hex_reject _ (Or.inr (by decide))
 example : hexDec (bytesOfAscii "0aFf") = some [0x0a, 0xff] := by decide
@@ -109,7 +114,7 @@ example : toUtf8 "é€😀".toList = [0xC3, 0xA9, 0xE2, 0x82, 0xAC, 0xF0, 0x9F,
     neither order nor duplicates; colorjson prints keys sorted).  All integers (big ones too), all
     unicode strings (escaping of quotes, backslash, C0 controls, DEL), any nesting depth. -/
 
-theorem json_roundtrip (v : Json.JV) (h : Proofs.C14J.Canon v) : Json.parse (Json.encode v) = .ok v [] :=
+theorem json_roundtrip (v : Json.JV) (h : Proofs.C14J.Canon v) : Json.parse (Json.encode false v) = .ok v [] :=
   Proofs.C14J.parse_encode v h
 
 /-- a string literal is read back exactly whatever follows it (the per-string core of the above) -/
@@ -127,8 +132,22 @@ example : Proofs.C14J.Canon
     (.obj [("a".toList, .arr [.num (-1), .str "x\"\n".toList, .null]), ("b".toList, .obj []), ("é".toList, .bool true)]) := by
   simp [Proofs.C14J.Canon, Proofs.C14J.CanonL, Proofs.C14J.CanonM, Json.ltKey]
 example : Proofs.C14J.NumSafe ",1]".toList := Proofs.C14J.numSafe_comma _
-example : Json.encode (.obj [("a".toList, .arr [.num (-12), .str "x\"\n\u007f".toList, .null])])
-    = "{\"a\":[-12,\"x\\\"\\n\\u007f\",null]}".toList := by decide/- The parser's behaviour on text the encoder never produces (duplicate keys: last wins; lone `\u`
+example : Json.encode false (.obj [("a".toList, .arr [.num (-12), .str "x\"\n\u007f".toList, .null])])
+    = "{\"a\":[-12,\"x\\\"\\n\\u007f\",null]}".toList := by decide/-! ## jq literal (stretch): `to_jq | from_jq` (format/json/jq.jq, as repaired by /repo commit fc0fdced:
+    empty strings, empty keys and negative numbers now survive).  `encode true` is `to_jq` with
+    the default options: JSON text with bare identifier keys; `parseJq` is the fragment of jq's
+    grammar that `to_jq` emits.  Same domain as `json_roundtrip`: every canonical value — all
+    integers incl. negative and big ones, all strings incl. "", all keys incl. "" and jq keywords. -/
+
+theorem jqlit_roundtrip (v : Json.JV) (h : Proofs.C14J.Canon v) : Json.parseJq (Json.encode true v) = .ok v [] :=
+  Proofs.C14J.parseJq_encode v h
+
+example : Json.encode true (.obj [([], .str []), ("a-b".toList, .num (-1)), ("if".toList, .arr [.num (-2)])])
+    = "{\"\":\"\",\"a-b\":-1,if:[-2]}".toList := by decide
+example : Proofs.C14J.Canon (.obj [([], .str []), ("a-b".toList, .num (-1)), ("if".toList, .arr [.num (-2)])]) := by
+  simp [Proofs.C14J.Canon, Proofs.C14J.CanonL, Proofs.C14J.CanonM, Json.ltKey]
+
+/- The parser's behaviour on text the encoder never produces (duplicate keys: last wins; lone `\u`
    surrogates: U+FFFD; trailing data, leading zeros, trailing commas: error) is not stated as
    kernel-evaluated examples (the kernel is too slow on the fuel-driven parser); it is pinned by
    corpus/C14/json.witness.ops against the real `fromjson` on every run. -/
@@ -186,8 +205,20 @@ theorem to_radix_canonical (b n : Nat) (hb : 2 ≤ b ∧ b ≤ 64) :
 
 example : toRadix 16 255 = some "ff".toList ∧ toRadix 64 4095 = some "__".toList ∧
     toRadix 2 (2 ^ 70) = some ("1" ++ String.ofList (List.replicate 70 '0')).toList := by decide
-/-- QUIRKS of from_radix kept by the model (radix.jq:1-15; reported, see lib/props/C14.json):
-    digits are not checked against the base, and the empty string is 0 -/
-example : fromRadix 2 "9".toList = some 9 ∧ fromRadix 2 [] = some 0 ∧ fromRadix 10 "1-".toList = none := by decide
+/-- "malformed input is an error" for from_radix — the part that holds: a character outside the
+    64-symbol table is rejected.
+    FULL statement (not provable, FALSE of radix.jq:1-15): also a digit ≥ base and the empty
+    string must be errors.  from_radix never compares a digit with `$base` and reduces the empty
+    list to 0; see the two witnesses below (known findings radix-digit-not-below-base,
+    radix-empty-string; the driver answers KNOWN for exactly these input classes). -/
+theorem from_radix_reject_partial (b : Nat) (s : List Char) (h : ∃ c ∈ s, radixVal c = none) :
+    fromRadix b s = none := fromRadix_reject b s h
+
+theorem from_radix_bad_digit_witness : fromRadix 2 "9".toList = some 9 ∧ fromRadix 10 "ff".toList = some 165 := by
+  decide
+
+theorem from_radix_empty_witness : fromRadix 16 [] = some 0 := by decide
+
+example : ∃ c ∈ "1-".toList, radixVal c = none := by decide
 
 end Props.C14
